@@ -17,8 +17,8 @@ RULE = ('(a) all 2048 SecurityIssues flag combinations: causes_signature_verify_
         'expired key or a wrong signature or >= 2 signatures; distinct by the scenario tuple. The domain is finite and enumerated completely.')
 RULE += ' Further subjects: a document signed by the signing subkey of the (expired) certificate; later attestations by the key on its user ids; a key expiration time of zero (= never); wrong signatures also with out-of-range integers.'
 RULE += ' Expiry sources: the most recent self-signature of the primary identity where an older self-signature of another identity says otherwise; the binding signature of the signing subkey; a direct-key self-signature where the self-certifications are silent.'
-ASSUMPTIONS = ['expiry is the only disqualifying key condition reachable through the public API today (self-signature verification is stubbed, '
-               'there is no "disabled" flag source)', 'keys and signatures are made by refpgp so that '
+RULE += ' Further: a validity period stated only in the unhashed area or removed by unhashed subpackets; a later forged self-certification with rubbish integers; a document signed by a key that sits in the certificate as a subkey packet without binding signature.'
+ASSUMPTIONS = ['disqualifying conditions reachable today: expiry and the absence of a valid self-signature (there is no "disabled" flag source)', 'keys and signatures are made by refpgp so that '
                'only PGPy\'s verification side is exercised']
 
 KEYS = [('rsa1024-0', 'RSA', 'weak'), ('rsa2048-2', 'RSA', 'strong'), ('dsa1024-0', 'DSA', 'weak'), ('dsa2048-1', 'DSA', 'strong'),
@@ -278,7 +278,7 @@ def scenario(rec, kid, fam, strength, expired, revoked, halg, subject, wrong):
     ids = [id(x.signature) for x in good] + [id(x.signature) for x in bad]
     if len(set(ids)) != len(ids):
         rec.finding('coherence', 'listed-twice', case, '')
-    if wrong is not None and not expired:
+    if wrong is not None and not expired and not disqualified:
         from pgpy.constants import SecurityIssues
         if not any(x.issues & SecurityIssues.WrongSig for x in bad):
             rec.finding('coherence', 'wrong-signature-not-in-bad', case, '')
